@@ -338,6 +338,8 @@ def payload(rng, n, kind):
         return bytes(rng.randint(1, 255) for _ in range(n))      # no NUL: xmpp_send_raw copies with strndup
     if kind == "run":
         return bytes([rng.choice(b"ax ")]) * n
+    if kind == "alnum":
+        return "".join(rng.choice(ALNUM) for _ in range(n)).encode()
     words = ["<message to='a@b'>", "<body>", "hello", " world ", "</body>", "</message>", "<presence/>", "lorem ipsum ", "0123456789"]
     s = ""
     while len(s) < n:
@@ -361,6 +363,33 @@ def in_stanza(rng, sid, n, kind):
 
 
 TERMINATOR = "<presence id='zz%d'><status>" + "end of the inbound test sequence " * 4 + "</status></presence>"
+
+
+def server_compressed_len(chunk):
+    """size of the chunk after simworld's server deflated it (Z_SYNC_FLUSH) as the first chunk after the preamble"""
+    import zlib
+    c = zlib.compressobj()
+    for p in (HDR, F_BIND, BINDRES):
+        c.compress(p.encode())
+        c.flush(zlib.Z_SYNC_FLUSH)
+    return len(c.compress(chunk) + c.flush(zlib.Z_SYNC_FLUSH))
+
+
+def marker_split_stanza(rng, t, sid="i0"):
+    """an inbound stanza whose compressed size is 4096 + t (t in 1..4): the library's second read of the chunk holds
+    nothing but the last t bytes of the flush marker"""
+    body = "".join(rng.choice(ALNUM) for _ in range(5800))
+    lo, hi = 4000, 5800
+    best = None
+    for n in range(5200, 5700):
+        st = "<message id='%s'><body>%s</body></message>" % (sid, body[:n])
+        L = server_compressed_len(st.encode())
+        if L == 4096 + t:
+            best = st
+            break
+        if L > 4096 + 4:
+            break
+    return best
 
 
 def cut(rng, data, sizes):
@@ -485,6 +514,8 @@ def expand_ops(ops):
             r = random.Random(d.get("seed", 1))
             if o[0] == "send":
                 out.append(["send", out_stanza(r, d["n"], d["gen"])])
+            elif d["gen"] == "marker-split":
+                out.append(["rx", (marker_split_stanza(r, d["t"], d.get("id", "i0")) or "<message id='i0'/>").encode().hex()])
             else:
                 s = in_stanza(r, d.get("id", "i0"), d["n"], d["gen"])
                 out.append(["rx", s.encode().hex()])
@@ -526,8 +557,13 @@ def gen_cases(chk):
                     sizes = [rng.choice([0, 5, 300, 3000]) for _ in range(rng.randint(1, 3))]
                 cases.append(gen_in(rng, rng.choice([64, 192]), sizes, ["text", "rand", "run"], chunking, "in-chunks-%s" % "+".join(map(str, chunking))))
         # compressed size just above the staging buffer: the last read holds only the end of the flush marker
-        for n in range(5360, 5400, 2 if thorough else 5):
-            cases.append(gen_in(rng, 64, [n], ["rand"], [1 << 20], "in-marker-split"))
+        for t in (1, 2, 3, 4):
+            for _ in range(3 if thorough else 1):
+                st = marker_split_stanza(rng, t)
+                if st:
+                    data = st + TERMINATOR % 1 + TERMINATOR % 2
+                    ops = [["rx", st.encode().hex()], ["run", 4], ["rx", (TERMINATOR % 1 + TERMINATOR % 2).encode().hex()], ["run", 2]]
+                    cases.append({"flags": 64, "ops": ops, "kind": "in-marker-split", "terminated": True})
     for _ in range(600 if thorough else 40):
         cases.append(gen_mixed(rng, rng.choice([64, 192])))
     return cases
@@ -614,6 +650,27 @@ def cleanup_private():
                 pass
 
 
+def classify(case, what):
+    """which of the defect classes found so far a failing scenario belongs to (for the report; nothing is suppressed)"""
+    its = case["ops"]
+    sends = [o for o in its if o[0] == "send"]
+    toks = [t for o in its if o[0] == "tx" for t in o[1]]
+    inbound = any(o[0] == "rx" for o in its)
+    if any(o[1] == "" for o in sends) and ("torn down" in what or "SENDERR" in what):
+        return "empty-write-tears-down"
+    if "parser input" in what or "handler saw" in what:
+        return "pending-input-not-processed"
+    if "torn down" in what and inbound and not toks:
+        return "read-without-text-taken-for-close"
+    if sends and not any(t != "all" for t in toks):
+        return "flush-incomplete"
+    if sends and any(t.startswith("k") for t in toks):
+        return "short-write-loses-bytes"
+    if sends and "again" in toks:
+        return "refusal-after-partial-consumption"
+    return "other"
+
+
 def slim(case):
     """case for reports: long payloads abbreviated (the replay file keeps the scenario line)"""
     ops = []
@@ -691,7 +748,7 @@ def evaluate(chk, cases, exe, mexe):
         if not o.crash and any(t[0] in "np" for t in o.hooks):
             chk.nontrivial.add(hash(key))
         for b in oracle(case, o)[:3]:
-            chk.fail(slim(case), b, extra={"scenario": sims[i][0], "label": case.get("kind")})
+            chk.fail(slim(case), b, extra={"scenario": sims[i][0], "label": case.get("kind"), "class": classify(case, b)})
         if not o.crash:
             for t in o.hooks:
                 if t[0] == "n":
@@ -746,12 +803,16 @@ def run(chk):
         cleanup_private()
     seen = set()
     uniq = []
-    for f in sorted(chk.failures, key=lambda f: len(f.get("scenario", ""))):
-        k = (re.sub(r"\d+", "N", f["what"])[:70], f.get("label", "").split("-")[0])
+    by_class = {}
+    for f in sorted(chk.failures, key=lambda f: (not str(f.get("label", "")).startswith("corpus"), len(f.get("scenario", "")))):
+        by_class[f.get("class", "other")] = by_class.get(f.get("class", "other"), 0) + 1
+        k = (f.get("class"), re.sub(r"\d+", "N", f["what"])[:40])
         if k not in seen:
             seen.add(k)
+            f["what"] = "[%s] %s" % (f.get("class"), f["what"])
             uniq.append(f)
     chk.extra["failing_scenarios_total"] = len(chk.failures)
+    chk.extra["failing_scenarios_by_class"] = by_class
     chk.failures[:] = uniq
     seen = set()
     uniq = []
